@@ -1,22 +1,22 @@
 CONSTANTS
   FlowSet = {"flows/a.yaml", "flows/b.yaml"}
   Endpoints = {"configuration", "apply_flows"}
-  Methods = {"PUT", "POST"}
-  MaxNth = 4
-  WithBadB64 = TRUE
+  Methods = {"PUT"}
+  MaxNth = 1
+  WithBadB64 = FALSE
   MxOld = {"m1"}
-  GwOld = {"none"}
+  GwOld = {"none", "e0"}
   MaxUpdates = 1
-  PayloadCats = {1, 4, 5}
+  PayloadCats = {1, 3, 4}
   AnchorFlows = {"flows/a.yaml"}
   Paths <- PathsMC
   Cat <- CatMC
   Inert <- NestedFlows
   CleanSkips = {}
   Unseen = {}
-  NestedPP = {}
+  NestedPP = {"path_params/a.yaml"}
   NestedFlows = {}
-  Txns = {1}
+  Txns = {}
   RestoreWrongDirection = FALSE
   PublishBeforeInit = FALSE
   ContinueAfter405 = FALSE
@@ -24,7 +24,7 @@ CONSTANTS
   NoReloadAfterRestore = FALSE
   MetricsToDefaultPath = FALSE
   StaleBackup = FALSE
-  RecordHistory = FALSE
+  RecordHistory = TRUE
 SPECIFICATION SpecMC
-INVARIANT WitnessOpenTxnServedByNew
+INVARIANT Emit
 CHECK_DEADLOCK FALSE
